@@ -31,6 +31,8 @@ class C07(F.Spec):
             yield self.gen_scenario(rng, i)
         for i in range(40 if tier == "quick" else 400):
             yield self.gen_reboot(rng, i)
+        for i in range(8 if tier == "quick" else 60):
+            yield self.gen_cancel(rng, i)
 
     def gen_probe(self, rng, i):
         ops = ["board relay8", "init"]
@@ -101,6 +103,35 @@ class C07(F.Spec):
         self.wait(ops, 62000)
         return F.Case("scen%d" % i, ops, {"tags": ["kind:scenario", "relays:%d" % nrel], "kind": "scenario", "cmds": cmds})
 
+    def gen_cancel(self, rng, i):
+        """timers on several channels, some of them already expired (their slots free again) when a running one is cancelled by a
+        command without a duration: the cancelled switch-back never comes"""
+        nrel = rng.choice([2, 4, 8])
+        ops = ["board relay%d" % nrel, "init", "adv 200"]
+        chans = list(range(nrel))
+        rng.shuffle(chans)
+        short, long_ = chans[0], chans[1]
+        if i % 2:
+            short, long_ = min(short, long_), max(short, long_)
+        else:
+            short, long_ = max(short, long_), min(short, long_)
+        cmds, now = [], 200
+        first = [(short, rng.choice([300, 1000])), (long_, rng.choice([5000, 8000]))]
+        if i % 4 >= 2:
+            first.reverse()
+        for ch, d in first:
+            ops.append("msg 110 " + set_value(9, ch, d, bytes([1] + [0] * 7)).hex())
+            cmds.append((now, ch, 1, d))
+            self.wait(ops, 100)
+            now += 100
+        self.wait(ops, 1800)          # the short timer has fired, its slot is free
+        now += 1800
+        v = rng.choice([1, 1, 0])
+        ops.append("msg 110 " + set_value(9, long_, 0, bytes([v] + [0] * 7)).hex())
+        cmds.append((now, long_, v, 0))
+        self.wait(ops, 12000)
+        return F.Case("cancel%d" % i, ops, {"tags": ["kind:scenario", "relays:%d" % nrel, "cancel"], "kind": "scenario", "cmds": cmds})
+
     @staticmethod
     def wait(ops, ms):
         """advance in steps of at most 1 s; the server answers every ping (keep-alive and the watchdog are C05's subject)"""
@@ -124,7 +155,10 @@ class C07(F.Spec):
             d = rng.choice([2500, 5000, 10000, 12345, 30000, 60000])
             ops.append("msg 110 " + set_value(9, ch, d, bytes([v] + [0] * 7)).hex())
             self.wait(ops, rng.choice([100, 300, 700, 1200, 1500, 2100, 3000]))
-        ops.append("reboot")
+        # a power cycle (reset reason 0), or a restart for another reason (4 software restart, 6 reset pin, 2 exception): relays with
+        # the 'restore always' flag come back in every case, those with the plain restore flag only after a power cycle
+        reason = rng.choice([0, 0, 4, 4, 6, 2])
+        ops.append("reboot" if reason == 0 else "reboot %d" % reason)
         ops += setup
         self.wait(ops, 62000)
         return F.Case("reboot%d" % i, ops, {"tags": ["kind:reboot", "relays:%d" % nrel], "kind": "reboot", "flags": flags, "cflags": cflags})
@@ -153,15 +187,17 @@ class C07(F.Spec):
         raw = case.meta.get("raw_impl") or []
         kind = case.meta.get("kind")
         if kind is None and any(o.startswith("msg 110 ") for o in case.ops):
-            kind = "reboot" if "reboot" in case.ops else "scenario"
+            kind = "reboot" if any(o.split()[0] == "reboot" for o in case.ops) else "scenario"
         if kind not in ("scenario", "reboot"):
             return []
         # one "life" per power cycle
         lives, cur = [], ([], [])
+        reasons = [0]
         for op, g in zip(case.ops, raw):
-            if op == "reboot":
+            if op.split()[0] == "reboot":
                 lives.append(cur)
                 cur = ([], [])
+                reasons.append(int(op.split()[1]) if len(op.split()) > 1 else 0)
             else:
                 cur[0].append(op)
                 cur[1].append(g)
@@ -170,6 +206,7 @@ class C07(F.Spec):
         infos = []
         for li, (ops, gs) in enumerate(lives):
             self._info = None
+            self._reason = reasons[li] if li < len(reasons) else 0
             fs += self.check_life(ops, gs, li)
             infos.append(self._info)
         # across a power cycle: what a restoring relay comes back with is the state it was last switched to, provided
@@ -296,12 +333,24 @@ class C07(F.Spec):
                 fs.append(F.Finding("timer-late", "channel %d: %d ms timer fired after %.1f ms" % (ch, d, dt)))
             if len(mine) > 1 and all(lvl == 1 - v for tm, lvl in edges.get(ch, []) if tm in mine[:2]):
                 fs.append(F.Finding("timer-fired-twice", "channel %d: two switch-back edges" % ch))
+        # a command without a duration (or an 'off' on a channel without the countdown capability) cancels whatever was pending on
+        # its channel: until the next command on that channel the output does not change again
+        for k, (t0, ch, v, d) in enumerate(cmds):
+            timed = d > 0 and (v == 1 or cflags.get(ch, 0x01000000) & 0x01000000)
+            if timed or ch >= nrel:
+                continue
+            newer = [c for c in cmds[k + 1:] if c[1] == ch]
+            t_end = newer[0][0] * 1000 if newer else end * 1000
+            late = [(tm, lvl) for tm, lvl in edges.get(ch, []) if t0 * 1000 + 60000 < tm < t_end]
+            if late:
+                fs.append(F.Finding("cancelled-timer-fired", "channel %d: set to %d without a duration at %d ms, yet the output changed "
+                                    "to %d at %d ms (a switch-back that this command should have cancelled)" % (ch, v, t0, late[0][1], late[0][0] // 1000)))
         # a life that started from saved state: relays come back as saved and switch back after the saved remaining time
         if boot is not None and not cmds:
             relay, left, t_init = boot
             for k in range(nrel):
                 ch = k
-                restore = bool(flags.get(k, 0) & 0x06)
+                restore = bool(flags.get(k, 0) & 0x04) or (bool(flags.get(k, 0) & 0x02) and getattr(self, "_reason", 0) == 0)
                 # pin low at power-on; edges during the init op give the restored level, later ones belong to timers
                 level_after_init = init_level.get(k, 0 ^ (1 if flags.get(k, 0) & 0x10 else 0))
                 later = after_init.get(k, [])
